@@ -334,6 +334,22 @@ def run(index, rep, tier):
                               "%s calls `%s` without passing its own suppress_unifurcations on: encode_bipartitions suppresses unifurcations by default, so suppress_unifurcations=False is honoured with update_bipartitions=False and silently overridden with update_bipartitions=True - the node left with one child is merged away after all, and the in-place result differs between the two settings" % (f.qualname, norm(c)[:50]))
         rep.floor("R08.11", "re-encodes in methods taking both options", 5, nup)
 
+    # ---- R08.12 one matching rule for labels
+    with rep.section("R08.12"):
+        rep.rule("R08.12", "the label variants of pruning, retaining and extraction decide which taxa a label names in ONE way: every method of Tree that takes `labels` hands them to taxon_namespace.get_taxa(labels=...) (the namespace's matching rule, case-insensitive by default) and goes on by taxon; none compares `taxon.label` with the given labels itself - otherwise prune_taxa_with_labels(['A']) and extract_tree_without_taxa_labels(['A']) remove different leaves from the same tree")
+        n12 = 0
+        for fi in index.methods_of(TREE):
+            if "labels" not in fi.params:
+                continue
+            n12 += 1
+            via_ns = [c for c in calls_in(fi.node, nested=True) if call_name(c) == "get_taxa" and (get_kwarg(c, "labels") is not None and norm(get_kwarg(c, "labels")) == "labels" or (c.args and norm(c.args[0]) == "labels"))]
+            own = [x for x in ast.walk(fi.node) if isinstance(x, ast.Compare) and any(isinstance(o, (ast.In, ast.NotIn, ast.Eq, ast.NotEq)) for o in x.ops)
+                   and any(isinstance(y, ast.Attribute) and y.attr == "label" for y in ast.walk(x)) and any(isinstance(y, ast.Name) and y.id == "labels" for y in ast.walk(x))]
+            rep.check(bool(via_ns) and not own, "R08.12", fi.qualname, "labels matched without the namespace" if not via_ns else "labels compared with taxon.label directly", fn_where(fi, own[0] if own else None),
+                      "%s resolves its labels through taxon_namespace.get_taxa" % fi.name,
+                      "%s %s: the in-place variants resolve labels through the namespace (case-insensitive unless the namespace says otherwise, first match per label), so for a label that differs from a taxon's in case only this method keeps or drops a different set of leaves than its in-place counterpart" % (fi.qualname, "compares `taxon.label` with the given labels itself (`%s`)" % norm(own[0])[:60] if own else "never asks the namespace which taxa the labels name"))
+        rep.floor("R08.12", "label variants", 4, n12)
+
 
 def _bool_leaves(t):
     if isinstance(t, ast.BoolOp):
